@@ -6,6 +6,7 @@ import SlogModel.Model.Redact
 import SlogModel.Model.Ser
 import SlogModel.Model.Pack
 import SlogModel.Model.Client
+import SlogModel.Model.Buffer
 import SlogModel.Gen.Facts
 import Driver.Util
 import Driver.XformParse
@@ -51,6 +52,7 @@ structure DState where
   routeN : Nat := 0
   routePipes : List Bytes := []     -- merge keys of the pipelines, in creation order
   routeMetrics : List Bytes := []   -- merge keys of the metric key sets, in creation order
+  buf : Buffer.St := { cfg := { memCap := 0, queueCap := 0, maxBytes := 0, hasDir := false } }
 
 def unhexAll (hs : List String) : Option (List Bytes) := hs.mapM unhex
 
@@ -307,6 +309,48 @@ def handleCfg (st : DState) : List String → DState × String
   | _ => (st, "bad-op")
 
 
+
+/-! hybrid buffer -/
+
+def showBuf (s : Buffer.St) (extra : String) : String :=
+  let files := (s.disk.mergeSort (fun a b => a.1 ≤ b.1)).map (fun p => s!"{p.1}:{hex p.2}")
+  let c := s.c
+  s!"p={c.pending} it={c.inT} ip={c.inP} co={c.consumed} lo={c.leftover} dr={c.dropped} io={c.ioErr} gc={c.gChunks} gb={c.gBytes} " ++
+  s!"q={c.qT + c.qP} out={s.outW.length} hand={if s.hand.isSome then 1 else 0} files={if files.isEmpty then "-" else ",".intercalate files}{extra}"
+
+def handleBuf (st : DState) : List String → DState × String
+  | ["new", m, q, b, d, fresh] =>
+    match m.toNat?, q.toNat?, b.toNat? with
+    | some m, some q, some b =>
+      -- a generation that was not shut down is shut down first (the harness does the same)
+      let prev := if st.buf.destroyed then st.buf else (Buffer.step st.buf .destroy).getD st.buf
+      let disk := if fresh == "1" then [] else prev.disk
+      let s := Buffer.recover { memCap := m, queueCap := q, maxBytes := b, hasDir := d == "1" } disk
+      ({ st with buf := s }, showBuf s "")
+    | _, _, _ => (st, "bad-op")
+  | op :: args =>
+    let o : Option Buffer.Op := match op, args with
+      | "accept", [id, h] => do some (.accept (← id.toNat?) (← unhex h))
+      | "take", [] => some .take
+      | "confirm", [id] => id.toNat?.map .confirm
+      | "handback", [id] => id.toNat?.map .handBack
+      | "destroy", [] => some .destroy
+      | "finish", [] => some .finish
+      | "extzero", [id] => id.toNat?.map .extZero
+      | "extrm", [id] => id.toNat?.map .extRemove
+      | _, _ => none
+    match o with
+    | none => (st, "bad-op")
+    | some o =>
+      match Buffer.step st.buf o with
+      | none => (st, "not-enabled")
+      | some s =>
+        let extra := match o with
+          | .take => match s.taken.getLast? with | some (id, d) => s!" took={id}:{hex d}" | none => ""
+          | _ => ""
+        ({ st with buf := s }, showBuf s extra)
+  | _ => (st, "bad-op")
+
 /-! client trace monitor -/
 
 def natList (t : String) : Option (List Nat) :=
@@ -364,6 +408,7 @@ def handle (st : DState) (line : String) : DState × String :=
   | "xform" :: rest => handleXform st rest
   | "cfg" :: rest => handleCfg st rest
   | "client" :: rest => (st, handleClient rest)
+  | "buf" :: rest => handleBuf st rest
   | ["redact", h] =>
     match unhex h with
     | none => (st, "bad-op")
